@@ -1,6 +1,7 @@
 import FstVerif.Proofs.Open
 import FstVerif.Proofs.OldVer
 import FstVerif.Spec.Format
+import FstVerif.Proofs.EofLift
 /-
 C10 — version / length gate of `Fst::new` and `verify` on old versions.
 Statements only; proofs in Proofs/Open.lean. (The read-side theorems for
@@ -84,6 +85,26 @@ theorem C10_stream {σ : Type} (version ty : Nat) (kvs : KV) (style : Nat) (shar
                   lowerOK min kv.1 && upperOK max kv.1 && A.accepts kv.1).map
                   fun kv => (kv.1, kv.2, A.run A.start kv.1)) :=
   OldVer.C10_stream version ty kvs style share h A hEof hCan min max
+
+/-- the same for an automaton that overrides the `accept_eof` hook (no `hEof`): old-version files
+are streamed by the same `next_with`; acceptance in the sense of `Aut.acceptsEof` -/
+theorem C10_stream_eof {σ : Type} (version ty : Nat) (kvs : KV) (style : Nat) (share : Bool)
+    (h : Input version ty kvs style share) (A : Aut σ)
+    (hCan : ∀ x, A.canMatch x = false →
+      ∀ w, A.isMatch (A.run x w) = false ∧ A.eofMatch (A.run x w) = false)
+    (min max : Bound) :
+    ∃ m, fstNew (Src.ofList (Spec.encodeFst version ty kvs style share)) = .ok m ∧
+      ∃ s0, streamNew (byteAccess m.version (Src.ofList (Spec.encodeFst version ty kvs style share)))
+          A m.rootAddr min max = some s0 ∧
+      ∃ N, ∀ fuel, N ≤ fuel →
+        streamCollect (byteAccess m.version (Src.ofList (Spec.encodeFst version ty kvs style share)))
+            A m.rootAddr fuel s0 [] =
+          some ((kvs.filter fun kv =>
+                  lowerOK min kv.1 && upperOK max kv.1 && A.acceptsEof kv.1).map
+                  fun kv => (kv.1, kv.2, A.run A.start kv.1)) := by
+  obtain ⟨m, hm, hs⟩ := OldVer.C10_stream version ty kvs style share h (eofLift A)
+    (fun _ => rfl) (eofLift_canSound A hCan) min max
+  exact ⟨m, hm, eof_transport hs⟩
 
 /-- the version-1 reader decodes nodes of any fan-out written without an index -/
 theorem C10_codec_v1 (n : BNode) (lastAddr start : Nat) (enc pre post : List UInt8)
